@@ -657,6 +657,7 @@ fn run_tail(ctx: &mut Ctx, rep: &mut Report, base: &mut u64) {
                         origin: format!("tail L={} M={} matrix={}", l, m, kind),
                         wrap_override: None,
                         spare_rows: 0,
+                        trimmed_rows: 0,
                     };
                     let set = [Cfg::GenU32, Cfg::GenU4, Cfg::SseU16, Cfg::SseU32, Cfg::AvxU32, Cfg::DispGen, Cfg::DispSse, Cfg::DispAvx];
                     let o = if alpha == "dna" { c01::check_case::<Dna>(&case, &set, true) } else { c01::check_case::<Protein>(&case, &set, true) };
